@@ -216,6 +216,11 @@ def _poll_accept(ctx, a, c):
         if w.signal.fired:
             w.viol.append(f"connection {sid} accepted although the shutdown signal had already resolved")
         w.accepted.append(sid)
+        if w.signal_at_accept and not w.signal.fired:
+            # the shutdown signal resolves while the server future is being polled (e.g. from another thread,
+            # or as a side effect of this very connection): right after this stream was handed out
+            w.signal_at_accept = False
+            w.fire_signal(midpoll=True)
         return READY(ok(StreamV(sid)))
     acc.waiter = task_of(ctx, a[1])
     return PENDING()
@@ -253,6 +258,8 @@ class MakeFutV:
         self.waiter = None
 
     def poll_model(self, ctx, cx):
+        if self.outcome is None and self.world.instant_make:
+            self.outcome = "ok"  # a shared / ready-made service: the make-service future resolves at its first poll
         if self.outcome is None:
             self.waiter = task_of(ctx, cx)
             return PENDING()
@@ -387,6 +394,9 @@ class World:
         self.viol, self.trace = [], []
         self.next_sid = 0
         self.fault = None
+        self.signal_at_accept = False
+        self.instant_make = False
+        self.midpoll = False
         self.server_result = None
         server = ctx.exec_fn(fns["server_new"], [self.acceptor, Opaque("protocol"), self.makesvc, self.executor])
         if graceful:
@@ -397,6 +407,14 @@ class World:
             self.poll_fn = fns["serving_poll"]
         self.root = Cell(fut, "server")
         ctx.woken.add("server")
+
+    def fire_signal(self, midpoll=False):
+        self.signal.fired = True
+        self.midpoll = self.midpoll or midpoll
+        for cn in self.conns.values():
+            cn.in_flight_at_signal = cn.in_flight
+            cn.served_at_signal = cn.served
+        wake(self.ctx, self.signal.waiter)
 
     # ---- actions -----------------------------------------------------------------------------
     def enabled(self, max_conns):
@@ -487,11 +505,9 @@ class World:
             f.outcome = "err"
             wake(ctx, f.waiter)
         elif k == "signal":
-            self.signal.fired = True
-            for cn in self.conns.values():
-                cn.in_flight_at_signal = cn.in_flight
-                cn.served_at_signal = cn.served
-            wake(ctx, self.signal.waiter)
+            self.fire_signal()
+        elif k == "signal-at-next-accept":
+            self.signal_at_accept = True
         else:
             raise Inconclusive("action " + repr(a))
 
@@ -536,7 +552,7 @@ def obligations(prog, src, tier, seed, which="C07"):
     }
     funcs = ["server::Server::{new,with_graceful_shutdown,into_future}", "server::Serving::{poll,poll_once}", "server::GracefulShutdown::{new,poll}", "server::{close,CloseSender::send,CloseReciever::into_future (async block),CloseFuture::poll}",
              "server::conn::drivers::{ConnectionDriver::poll,GracefulConnectionDriver::{new,poll}}"]
-    depths = {0: 5, 1: 4, 2: 3} if tier == "quick" else {0: 7, 1: 6, 2: 4}
+    depths = {0: 5, 1: 4, 2: 3} if tier == "quick" else {0: 6, 1: 5, 2: 4}
     max_conns = 2
     total_conns = 3
 
@@ -658,7 +674,7 @@ def obligations(prog, src, tier, seed, which="C07"):
             stage = "in_flight" if getattr(cn, "in_flight_at_signal", False) else ("idle" if getattr(cn, "served_at_signal", 0) else "sniffing")
         scn = {"family": "graceful", "stage": stage, "schedule": str(w.trace if w is not None else "")}
         if w is not None and (w.acceptor.polls_after_signal or any("accepted although" in v or "spawned after" in v for v in w.viol)):
-            scn["late"] = "queued"
+            scn["late"] = "midpoll" if w.midpoll else "queued"
         return scn
 
     def judge_c07(scn, out):
@@ -677,7 +693,35 @@ def obligations(prog, src, tier, seed, which="C07"):
             return out.get("closed") == "0"
         return None
 
+    def run_midpoll(ctx):
+        """the signal resolves while the server future is being polled: two clients are queued, the service
+        for a connection is ready at once, and handing out the first (or second) stream resolves the signal"""
+        ctx.coroutines = True
+        ctx.now = z3.IntVal(0)
+        ctx.timers, ctx.woken = [], set()
+        w = World(ctx, fns, True)
+        ctx.world = w
+        w.instant_make = ctx.choose([(True, True), (True, False)], "make-service future ready at once")
+        queued = ctx.choose([(True, 2), (True, 3)], "clients queued at the listener")
+        polled_before = ctx.choose([(True, False), (True, True)], "server already polled once while idle")
+        if polled_before:
+            w.apply(("poll-server",))
+        for _ in range(queued):
+            w.apply(("connect",))
+        w.apply(("signal-at-next-accept",))
+        ctx.woken.add("server")
+        w.apply(("poll-server",))
+        w.free = list(w.trace)
+        w.drain()
+        return w
+
     obs = []
+    if which == "C07":
+        obs.append({"name": "c07_signal_resolves_during_poll", "family": "graceful_schedules", "funcs": funcs,
+                    "bound": "2 or 3 clients queued at the listener; the make-service future ready at once or not; the shutdown signal resolves in the middle of a poll of the server future, right after a stream was handed out; then a drain",
+                    "doc": "the signal is looked at before every accept step: connections still queued when it resolves are not accepted, even within the same poll",
+                    "run": run_midpoll, "check": check_graceful, "crosscheck": False, "loop_bound": 40,
+                    "cex_extract": scenario_c07, "judge": judge_c07})
     import itertools
     conn_states = list(itertools.product((False, True), (False, True)))  # (driver polled, request in flight)
     pres = [()] + [(a,) for a in conn_states] + [(a, b) for a, b in itertools.combinations_with_replacement(conn_states, 2)]
